@@ -46,6 +46,21 @@ func init() {
 		NotCovered: "ring-buffer position arithmetic, lastQ, in-order application, pool/path bookkeeping, lockstep with the source node",
 	})
 	register(&PropertySpec{
+		ID: "C12",
+		Rules: []RuleSpec{
+			{"opcode-tables", "every Opcode constant is valid in the decoder table, dispatched by vm.execute (arm or PUSHINT range test, faulting default), priced in fee.coefficients, and operand usage agrees between decoder and dispatcher", ruleOpcodeTables},
+			{"jump-opcode-agreement", "the set of opcodes whose execute arm computes a jump target equals the set whose operands IsScriptCorrect records as jump targets; the boundary subset test gates its success exit; interpreter and checker share one decoder", ruleJumpAgreement},
+		},
+		NotCovered: "the reference counter's arithmetic (never under-counts), implicit run-time panics outside the recover scope",
+	})
+	register(&PropertySpec{
+		ID: "C13",
+		Rules: []RuleSpec{
+			{"opcode-tables", "every Opcode constant is valid in the decoder table, dispatched by vm.execute (arm or PUSHINT range test, faulting default), priced in fee.coefficients, and operand usage agrees between decoder and dispatcher", ruleOpcodeTables},
+		},
+		NotCovered: "numeric semantics at the 256-bit boundary, remainder signs, shift rounding, conversion rules — everything an independent specification would compare; the heart of C13 is not statically decidable here",
+	})
+	register(&PropertySpec{
 		ID: "C07",
 		Rules: []RuleSpec{
 			{"admit-dominators", "every admission check of verifyAndPoolTx (script, expiry, VUB window, policy, size, network fee, on-chain/conflict record, witnesses with the remaining fee, attributes) gates pool.Add on every CFG path", ruleAdmitDominators},
